@@ -258,6 +258,8 @@ pub struct Peer {
     pub stream_error: Option<String>,
     /// the peer has already sent its close
     pub close_sent: bool,
+    /// a frame handed to the pipe for sending at a given output offset of the library (`send_when_lib_wrote`)
+    scheduled: Option<(u16, Performative, u32)>,
 }
 
 impl Peer {
@@ -275,6 +277,7 @@ impl Peer {
             sasl_mode: false,
             stream_error: None,
             close_sent: false,
+            scheduled: None,
         }
     }
 
@@ -315,6 +318,22 @@ impl Peer {
         let mut body = encode_perf(&p);
         body.extend_from_slice(payload);
         let bytes = frame_bytes(0, channel, &body);
+        self.note_sent(channel, &p, bytes.len() as u32, payload);
+        self.send_raw(&bytes);
+    }
+    /// Send `p` at the very moment the library has written `at` bytes in total (between two frames of a
+    /// burst, where `pump` cannot act).  The peer's books are updated at the next `pump`, before it
+    /// looks at what the library wrote.
+    pub fn send_when_lib_wrote(&mut self, at: usize, channel: u16, p: Performative) {
+        let bytes = frame_bytes(0, channel, &encode_perf(&p));
+        self.scheduled = Some((channel, p, bytes.len() as u32));
+        self.pipe.set_inject(1 - self.side, at, bytes);
+    }
+    pub fn scheduled_pending(&self) -> bool {
+        self.scheduled.is_some()
+    }
+    fn note_sent(&mut self, channel: u16, p: &Performative, size: u32, payload: &[u8]) {
+        let p = p.clone();
         // bookkeeping for what we send
         match &p {
             Performative::Transfer(_) => {
@@ -336,8 +355,7 @@ impl Peer {
             Performative::Close(_) => self.close_sent = true,
             _ => {}
         }
-        self.record(Dirn::FromPeer, bytes.len() as u32, 2, 0, channel, Body::Perf(p), payload.to_vec());
-        self.send_raw(&bytes);
+        self.record(Dirn::FromPeer, size, 2, 0, channel, Body::Perf(p), payload.to_vec());
     }
     pub fn send(&mut self, channel: u16, p: impl Into<Performative>) {
         self.send_perf(channel, p.into(), &[]);
@@ -488,6 +506,10 @@ impl Peer {
     /// Parse what the library wrote since the last call, apply the enabled default answers, and
     /// return the newly read frames.
     pub fn pump(&mut self) -> Vec<WFrame> {
+        if self.scheduled.is_some() && self.pipe.inject_fired() {
+            let (ch, p, size) = self.scheduled.take().unwrap();
+            self.note_sent(ch, &p, size, &[]);
+        }
         self.parse_incoming();
         let mut new = vec![];
         while self.cursor < self.trace.len() {
@@ -515,6 +537,22 @@ impl Peer {
     }
 
     fn react_perf(&mut self, ch: u16, p: &Performative, _payload: &[u8]) {
+        // a conforming peer sends nothing on a session after its end and nothing at all after its close
+        // (frames of the library that crossed them on the wire are only booked)
+        let silent = self.close_sent || self.sessions.get(&ch).map(|s| s.end_sent).unwrap_or(false);
+        let saved = self.auto.clone();
+        if silent {
+            self.auto.attach = false;
+            self.auto.detach = false;
+            self.auto.accept_transfers = false;
+            self.auto.begin = self.auto.begin && !self.close_sent;
+            self.auto.end = self.auto.end && !self.close_sent;
+        }
+        self.react_perf_inner(ch, p, _payload);
+        self.auto = saved;
+    }
+
+    fn react_perf_inner(&mut self, ch: u16, p: &Performative, _payload: &[u8]) {
         match p {
             Performative::Open(_) => {
                 if self.auto.open {
